@@ -127,6 +127,9 @@ Proof.
   induction 1 as [|[d' a] fee Ha _ IH]; simpl; [lia|]. destruct (Nat.eqb d' d); auto.
 Qed.
 
+Lemma allowed_amount_le p fee d : Forall (fun c => 0 <= snd c) fee -> allowed_amount p fee d <= amount_of fee d.
+Proof. intro H. unfold allowed_amount. pose proof (amount_of_nonneg fee d H). destruct (_ || _); lia. Qed.
+
 Lemma allowed_amount_nonneg p fee d : Forall (fun c => 0 <= snd c) fee -> 0 <= allowed_amount p fee d.
 Proof. intro H. unfold allowed_amount. destruct (_ || _); [apply amount_of_nonneg; exact H|lia]. Qed.
 
@@ -223,12 +226,15 @@ Proof.
   unfold P_pay. cbv zeta. split.
   - intro Hin. specialize (Hbl _ Hin). apply mem_false_notin in Hbl. apply Hbl. exact HE.
   - exists (q_model E p t (length (eff_recipients p (reg_lookup R) (t_msgs t)))).
-    split; [|split; [|split]].
+    split; [|split; [|split; [|split]]].
     + intro d. apply q_model_props; assumption.
     + exact Hform.
     + intro d. destruct (q_model_props E p t (length (eff_recipients p (reg_lookup R) (t_msgs t))) d Honce Hp Hf) as (_ & B & _).
       pose proof PREC_HALF. pose proof HALF_pos. nia.
     + intro d. apply q_model_props; assumption.
+    + intro d. destruct (q_model_props E p t (length (eff_recipients p (reg_lookup R) (t_msgs t))) d Honce Hp Hf) as (B0 & B & _).
+      pose proof (allowed_amount_le p (t_fee t) d Hf). pose proof (allowed_amount_nonneg p (t_fee t) d Hf).
+      unfold params_ok in Hp. pose proof PREC_HALF. pose proof HALF_pos. nia.
 Qed.
 
 (* ------------------------------------------------------------------ registry part *)
@@ -341,9 +347,11 @@ Qed.
 Definition event_ok (ev : event) : Prop :=
   match ev with
   | EvTx t => fee_ok (t_fee t)
-  | EvEnv (SetParams p) => params_ok p
   | EvEnv _ => True
   end.
+
+Lemma params_valid_ok p : params_valid p = true -> params_ok p.
+Proof. unfold params_valid, params_ok. intro H. apply andb_true_iff in H as [H1 H2]. apply Z.leb_le in H1, H2. lia. Qed.
 
 Definition transition_ok (E : env) (tr : state * txin * state * txout) : Prop :=
   let '(st, t, st', out) := tr in
@@ -365,12 +373,13 @@ Proof.
   - destruct (step_tx E st t) as [st' out] eqn:Hst. constructor.
     + intro scope. pose proof (tx_satisfies_property E st t scope HE Hp H1) as HP. rewrite Hst in HP. exact HP.
     + apply IH; auto. pose proof (step_tx_params E st t) as Hpp. rewrite Hst in Hpp. simpl in Hpp. rewrite Hpp. exact Hp.
-  - apply IH; auto. destruct o; simpl; auto.
+  - apply IH; auto. destruct o as [p'| |]; simpl; auto.
+    destruct (params_valid p') eqn:Hv; [simpl; apply params_valid_ok; exact Hv|exact Hp].
 Qed.
 
 (** environment operations and failing transactions never change the registry *)
 Lemma env_keeps_registry st o : s_reg (step_env st o) = s_reg st.
-Proof. destruct o; reflexivity. Qed.
+Proof. destruct o as [p'| |]; simpl; try reflexivity. destruct (params_valid p'); reflexivity. Qed.
 
 (* ------------------------------------------------------------------ named consequences *)
 
